@@ -185,6 +185,61 @@ def run(ck):
         report("any", cfg, events, drv, None, None, None)
         ck.hist("arbitrary_runs")
 
+    # --- 3. composed: the real Consumer over the REAL KafkaClient (afkak/client.py is under test too); only the brokers are
+    #        scripted.  Commit / offset-fetch / coordinator replies carry every group error code; the store records an
+    #        offset only when it answers error 0.  No model on this stream: monitors only.
+    from props import consumer_compose_lib as CC
+    ncomp = 45 * scale
+    comp_commits = comp_acked = comp_resumes = 0
+    for i in range(ncomp):
+        log = LL.PartitionLog(rnd, n=rnd.randint(5, 40))
+        ents = [o for (o, k, v) in log.entries]
+        store0 = rnd.choice([None, None] + ents[:4])
+        store = LL.OffsetStore(store0)
+        cfgc = dict(acn=rnd.choice([0, 1, 2, 3]), acs=rnd.choice([0, 1]), reset=rnd.choice([0, 1, 2]), maxatt=rnd.choice([0, 0, 3]),
+                    gen=rnd.choice([-1, 17]))
+        seed = rnd.randrange(1 << 30)
+        run = CC.run_life(random.Random(seed), log, store, rnd.choice([60, 100, 140]),
+                          [CL.OFFSET_COMMITTED, CL.OFFSET_COMMITTED, CL.OFFSET_EARLIEST, ents[0] if ents else 0],
+                          fault=rnd.choice([0.1, 0.25, 0.4]), **cfgc)
+        comp_commits += len(run.commit_reqs)
+        comp_acked += len(run.acked)
+        ck.hist("composed_lives")
+        bad = CC.monitors(run, store0)
+        if run.escaped:
+            bad.append(("no exception escapes a stimulus", "step %d: %s" % (run.escaped[0], run.escaped[1])))
+        for (thm, what) in bad:
+            ck.violation({"kind": "monitor (composed: real Consumer over real KafkaClient, scripted brokers)", "theorem": thm, "what": what,
+                          "cfg": cfgc, "seed": seed, "events": [list(e) for e in run.log_events], "store0": store0,
+                          "log_units": [[u.kind, u.magic, [[o, list(k) if k is not None else None, list(v) if v is not None else None] for (o, k, v) in u.entries]] for u in log.units],
+                          "replay_op": "composed"})
+        c = store.committed
+        if c is not None and c >= log.start - 1 and not bad:
+            run2 = CC.Run(random.Random(seed + 1), log, store, acn=0, acs=0, reset=cfgc["reset"], maxatt=0)
+            run2.step(("start", CL.OFFSET_COMMITTED))
+            for _ in range(80):
+                if len(run2.plan) < 3:
+                    run2.step(("plan", 0, 0))
+                pend = run2.pending()
+                if pend:
+                    run2.step(("answer", pend[0].rid, 0))
+                elif run2.clock.getDelayedCalls():
+                    run2.step(("timer", 0))
+                else:
+                    break
+            comp_resumes += 1
+            want = [o for (o, k, v) in log.entries if o > c]
+            got = run2.delivered
+            if got != want[:len(got)] or (want and not got):
+                ck.violation({"kind": "monitor (composed)", "theorem": "C03_resume",
+                              "what": "store holds %d; a fresh consumer started from OFFSET_COMMITTED over the real client received %r..., the log holds %r... after it"
+                                      % (c, got[:10], want[:10]), "cfg": cfgc, "seed": seed, "events": [list(e) for e in run.log_events],
+                              "replay_op": "composed"})
+    ck.hist("composed_commit_requests", comp_commits)
+    ck.hist("composed_commits_acknowledged", comp_acked)
+    ck.hist("composed_resumes_checked", comp_resumes)
+    ck.cov["evaluations"] += ncomp
+
     diffs, mo = ck.correspond(MODEL, MODULE, cases, impl, "real Consumer (group, commits, crash/resume) vs Model.Consumer (full canonical trace)",
                               nontrivial=lambda c, o: any(x[0] == CL.OUT_COMMIT for st in CL.split_steps(o)[0] for x in st), describe=describe)
     if diffs and not ck.violations:
@@ -237,6 +292,23 @@ def replay(rp):
             log = L()
             log.entries = [(o, None if k is None else bytes(k), None if v is None else bytes(v)) for (o, k, v) in rp["log"]]
         bad = monitors(CL, LL, C02, cfg, [tuple(e) for e in rp["events"]], drv, log, None, None)
+        print("monitor verdicts:", json.dumps(bad, indent=1, default=repr))
+        return 1 if bad else 0
+    if rp.get("replay_op") == "composed":
+        import random
+        from props import consumer_compose_lib as CC
+        log = LL.PartitionLog(random.Random(0), n=0, first=0)
+        for (kind, magic, ents) in rp.get("log_units", []):
+            log.units.append(LL.Unit(kind, magic, [(o, None if k is None else bytes(k), None if v is None else bytes(v)) for (o, k, v) in ents]))
+        if log.units:
+            log.start = log.units[0].entries[0][0]
+            log.next = log.units[-1].entries[-1][0] + 1
+        store = LL.OffsetStore(rp.get("store0"))
+        run = CC.replay_life(rp.get("seed", 0), log, store, rp["events"], **rp["cfg"])
+        bad = CC.monitors(run, rp.get("store0"))
+        print("delivered:", run.delivered)
+        print("commit requests:", run.commit_reqs)
+        print("acknowledged:", run.acked, "commit() results:", run.commit_results, "last_committed_offset history:", run.lc_seen)
         print("monitor verdicts:", json.dumps(bad, indent=1, default=repr))
         return 1 if bad else 0
     print(json.dumps(rp, indent=1, default=repr)[:3000])
